@@ -544,9 +544,21 @@ func runSeq(run *kit.Run, c Case, verbose bool) (obs []stepObs, final []int64, o
 	}
 
 	panicked := false
+	ref2 := mInit(c.Cfg) // the documented rules from the documented defaults, in try-form
 	for i, o := range c.Ops {
 		b := snapshot(q)
 		r := apply(q, d, ctx, o)
+		{
+			n, wr, blocked := ref2.step(o)
+			if blocked {
+				wr = Res{K: "err", E: "ctx"}
+			} else {
+				ref2 = n
+			}
+			if r.K != "panic" && r != wr {
+				fail(i, o, "sequential-rules", fmt.Sprintf("returned %s; the documented limit/credit rules, started from the documented option defaults, give %s (reference: len=%d softQuota=%d credit=%v closed=%v)", r, wr, ref2.length, ref2.sq, ref2.credit, ref2.closed))
+			}
+		}
 		if r.K == "panic" { // the queue may be unusable now (e.g. a nil sentinel): stop here
 			obs = append(obs, stepObs{Res: r})
 			fail(i, o, "panic", "panicked: "+r.E)
@@ -767,7 +779,7 @@ func execSeq(run *kit.Run, c Case, verbose bool) {
 }
 
 func execNew(run *kit.Run, c Case, verbose bool) {
-	_, err := newQueue(c.Cfg)
+	q, err := newQueue(c.Cfg)
 	if verbose {
 		fmt.Printf("NewQueue(%+v) error = %v\n", c.Cfg, err)
 	}
@@ -778,8 +790,38 @@ func execNew(run *kit.Run, c Case, verbose bool) {
 		run.OracleFail(c.ID, "C05:NewQueue:options", fmt.Sprintf("NewQueue(%+v) error=%v, documented rule accepts=%v", c.Cfg, err, want), c, err == nil)
 	}
 	run.Count(fmt.Sprintf("new/accepted=%v", err == nil))
-	term := fmt.Sprintf("CNew %s %s %s %s %s", kit.ZI(c.ID), kit.ZI(c.Cfg.HL), kit.ZI(c.Cfg.SQ), coqF(c.Cfg.BC), kit.Bool(err == nil))
-	run.Case(c.ID, c, term, fmt.Sprintf("n|%v", c.Cfg), false)
+	sqObs, hlObs := 0, 0
+	var lt []bool
+	if err == nil {
+		sn := snapshot(q)
+		sqObs, hlObs = sn.SoftQuota, sn.HardLimit
+		// decisions on the initial credit, never the float itself
+		for k := 1; k <= c.Cfg.HL+3; k++ {
+			lt = append(lt, sn.Credit < float64(k))
+		}
+		// direct oracle: the documented defaults (SoftQuota <= 0 => HardLimit; BurstCredit == 0 =>
+		// float(SoftQuota after defaulting)), recomputed here and compared inside Go
+		wsq := c.Cfg.SQ
+		if wsq <= 0 {
+			wsq = c.Cfg.HL
+		}
+		wbc := bc
+		if wbc == 0 {
+			wbc = float64(wsq)
+		}
+		same := sn.Credit == wbc || (math.IsNaN(sn.Credit) && math.IsNaN(wbc))
+		if sn.Tracker != "quota" || sn.SoftQuota != wsq || sn.HardLimit != c.Cfg.HL || !same || sn.Length != 0 {
+			run.OracleFail(c.ID, "C05:Validate:defaults", fmt.Sprintf("NewQueue(%+v) built tracker softQuota=%d hardLimit=%d credit=%v; the documented defaults give softQuota=%d hardLimit=%d credit=%v", c.Cfg, sn.SoftQuota, sn.HardLimit, sn.Credit, wsq, c.Cfg.HL, wbc), c, sn)
+		}
+		if c.Cfg.SQ <= 0 || bc == 0 {
+			run.Count("new/defaulted-fields")
+		}
+		if verbose {
+			fmt.Printf("  tracker: softQuota=%d hardLimit=%d credit=%v\n", sn.SoftQuota, sn.HardLimit, sn.Credit)
+		}
+	}
+	term := fmt.Sprintf("CNew %s %s %s %s %s %s %s %s", kit.ZI(c.ID), kit.ZI(c.Cfg.HL), kit.ZI(c.Cfg.SQ), coqF(c.Cfg.BC), kit.Bool(err == nil), kit.ZI(sqObs), kit.ZI(hlObs), kit.BoolList(lt))
+	run.Case(c.ID, c, term, fmt.Sprintf("n|%v", c.Cfg), err == nil && (c.Cfg.SQ <= 0 || bc == 0))
 }
 
 // ---------------------------------------------------------------- concurrent histories
@@ -1196,6 +1238,8 @@ func execCase(run *kit.Run, c Case, verbose bool) {
 		checkHist(run, c, verbose)
 	case "stress":
 		runContention(run, c, verbose)
+	case "wake":
+		runWake(run, c, verbose)
 	}
 }
 
@@ -1243,6 +1287,10 @@ func main() {
 		{Kind: "seq", Cfg: Cfg{Kind: "unlimited"}, Ops: []Op{{Op: "Add", V: 1}, {Op: "Remove"}, {Op: "Add", V: 2}, {Op: "Add", V: 3}, {Op: "Close"}, {Op: "Add", V: 4}, {Op: "BlockingAdd", V: 5}, {Op: "Send", V: 6}, {Op: "Wait"}, {Op: "Receive"}, {Op: "Wait"}, {Op: "Receive"}, {Op: "Remove"}, {Op: "DLen"}}},
 		{Kind: "seq", Cfg: Cfg{Kind: "hard", Cap: 2}, Ops: []Op{{Op: "Add", V: 1}, {Op: "Add", V: 2}, {Op: "Add", V: 3}, {Op: "BlockingAdd", V: 4}, {Op: "Remove"}, {Op: "BlockingAdd", V: 5}, {Op: "Wait"}, {Op: "Wait"}, {Op: "Wait"}}},
 		{Kind: "seq", Cfg: Cfg{Kind: "hard", Cap: 0}, Ops: []Op{{Op: "Add", V: 1}, {Op: "BlockingAdd", V: 2}, {Op: "Remove"}}},
+		// only HardLimit set: Add x3, Remove (quota shrinks to 9, credit refund fractional, capped at 1), refill, one more on credit
+		{Kind: "seq", Cfg: Cfg{Kind: "quota", HL: 10}, Ops: []Op{{Op: "Add", V: 1}, {Op: "Add", V: 2}, {Op: "Add", V: 3}, {Op: "Remove"}, {Op: "Add", V: 4}, {Op: "Add", V: 5}, {Op: "Add", V: 6}, {Op: "Add", V: 7}, {Op: "Add", V: 8}, {Op: "Add", V: 9}, {Op: "Add", V: 10}, {Op: "Add", V: 11}, {Op: "Add", V: 12}, {Op: "Len"}}},
+		{Kind: "new", Cfg: Cfg{Kind: "quota", HL: 10}},
+		{Kind: "new", Cfg: Cfg{Kind: "quota", HL: 4, SQ: -1}},
 		{Kind: "new", Cfg: Cfg{Kind: "quota", HL: 0}},
 		{Kind: "new", Cfg: Cfg{Kind: "quota", HL: 2, SQ: 3}},
 		{Kind: "new", Cfg: Cfg{Kind: "quota", HL: 2, SQ: 2, BC: fmtF(-1)}},
@@ -1259,6 +1307,14 @@ func main() {
 		r := run.Rand.Fork()
 		c := Case{ID: id, Kind: "new", Cfg: Cfg{Kind: "quota", HL: r.Range(-2, 6), SQ: r.Range(-2, 8)}}
 		id++
+		if r.Chance(1, 3) { // defaults-only / partially defaulted shapes of valid options
+			c.Cfg.HL = r.Range(1, 12)
+			c.Cfg.SQ = []int{0, 0, -1, -3, c.Cfg.HL, r.Range(1, c.Cfg.HL)}[r.Intn(6)]
+			if r.Chance(2, 3) {
+				execCase(run, c, false) // BurstCredit left at zero
+				continue
+			}
+		}
 		switch r.Intn(9) {
 		case 0:
 			c.Cfg.BC = fmtF(-1)
@@ -1287,6 +1343,15 @@ func main() {
 		execCase(run, c, false)
 	}
 
+	// defaults-only options {HardLimit: h}: burst-credit admission depends on Validate's defaults
+	nDef := run.Pick(300, 6000)
+	for i := 0; i < nDef; i++ {
+		r := run.Rand.Fork()
+		c := genDefaultsCase(r, id)
+		id++
+		execCase(run, c, false)
+	}
+
 	nHist := run.Pick(400, 8000)
 	for i := 0; i < nHist; i++ {
 		r := run.Rand.Fork()
@@ -1300,6 +1365,14 @@ func main() {
 	for i := 0; i < nStress; i++ {
 		r := run.Rand.Fork()
 		c := genContention(r, id, run.Pick(4000, 16000))
+		id++
+		execCase(run, c, false)
+	}
+	// parked consumers must all be served (stops at the first failure: a stuck run costs 10 s)
+	nWake := run.Pick(40, 400)
+	for i := 0; i < nWake && run.NOracle == 0; i++ {
+		r := run.Rand.Fork()
+		c := Case{ID: id, Kind: "wake", Cfg: Cfg{Kind: "unlimited"}, C: r.Range(2, 4), N: r.Intn(2)}
 		id++
 		execCase(run, c, false)
 	}
